@@ -16,7 +16,7 @@ from __future__ import annotations
 import itertools
 import re
 
-from .. import common, drive, gen, xf
+from .. import render, common, drive, gen, xf
 from ..model import Form, Row
 
 PROP = "C19"
@@ -219,6 +219,8 @@ def run_shard(ctx):
                     nsv = NS_VARIANTS[n % len(NS_VARIANTS)]
                     if nsv:
                         form.settings["namespaces"] = nsv
+                    if n % 5 == 2:
+                        form.settings["omit_instanceID"] = ["yes", "true", "Yes"][n % 3]  # no instanceID: the declaration is still due
                     sig = f"{combo}|{shape}|{placement}|{dataset}|ns{n % len(NS_VARIANTS)}"
                     ctx.ctr("decision_cases")
                     ctx.case(sig=sig)
@@ -308,6 +310,34 @@ def run_shard(ctx):
             ctx.viol(f"accepted-but-must-reject:{name}", "converted", common.witness(form, structural=name))
         elif not o.exc_is_pyxform:
             ctx.viol(f"internal-exception:{o.exc_type}:{name}", o.brief(), common.witness(form, structural=name))
+    # several forms with entity declarations parsed and built before the first of them is rendered (a batch converter, a cache of surveys)
+    for k in range(12):
+        n += 1
+        if not ctx.mine(n):
+            continue
+        from pyxform.builder import create_survey_element_from_dict
+        from pyxform.xls2json import workbook_to_json
+        from pyxform.xls2json_backends import get_xlsform
+        specs = [("shrubs", (0, 1, 0, 1)), ("trees", (1, 0, 1, 0)), ("rocks", (0, 0, 0, 1)), ("birds", (1, 1, 1, 1))]
+        order = specs[k % 4:] + specs[:k % 4]
+        built = []
+        for ds, combo in order[: 2 + k % 3]:
+            fm, saved = build(combo, "ref", "top", ds)
+            sv = create_survey_element_from_dict(workbook_to_json(get_xlsform(render.to_dict(fm.to_sheets())), warnings=[]))
+            built.append((ds, combo, fm, saved, sv))
+        for ds, combo, fm, saved, sv in built:  # render only now, oldest first
+            ctx.ctr("accepted_compared")
+            ctx.case(sig=f"batch-build|{k}|{ds}")
+            try:
+                x = sv.to_xml(validate=False, pretty_print=False)
+            except Exception as e:  # noqa: BLE001
+                ctx.viol("batch-build:render-raised", f"{ds}: a survey built before {len(built) - 1} other entity forms failed to render: {type(e).__name__}: {str(e)[:200]}", common.witness(fm, dataset=ds))
+                continue
+            class _O:  # the shape judge_accepted expects
+                pass
+            o = _O()
+            o.xform = x
+            judge_accepted(ctx, fm, combo, "ref", saved, o, lambda **kw: common.witness(fm, dataset=ds, history="built before other entity forms, rendered later", **kw), ds)
     # save_to on rows that are neither ordinary questions nor groups: the audit row (moved to meta) - without an entities sheet it must be refused like any other
     n += 1
     if ctx.mine(n):
